@@ -96,3 +96,29 @@ def run(case, ctx):
     return {"nontrivial": ev1 != ev0 or len(s.rel._messages) != n0, "fails": fails,
             "shape": (case["paired"], tuple(sorted(kinds)), len(set(m[1] for m in case["msgs"] if m[0] in ("on", "off")))),
             "observed": {"problems_in_input": sorted(kinds), "events_in": len(ev0), "events_out": len(ev1)}}
+
+
+def _corpus_body(rng, k):
+    from vmon import corpus
+    desc, w = corpus.window(rng, min_len=24, max_len=600, normalise=False)
+    # make it hostile: drop a random message so that unclosed / orphaned notes occur in real material
+    msgs = w.rel._messages
+    if msgs and rng.random() < 0.7:
+        del msgs[rng.randrange(len(msgs))]
+        w.invalidate_abs()
+    t0, d0 = orc.view_rel(w.rel)
+    ev0 = orc.events(t0)
+    w.normalise()
+    t1, d1 = orc.view_rel(w.rel)
+    c = w.copy()
+    c.normalise()
+    t2, d2 = orc.view_rel(c.rel)
+    if orc.events(t2) != orc.events(t1) or d2 != d1:
+        from vmon.monitors import LOG
+        LOG.rec("C07", "driver", "idempotence_on_corpus", False, desc)
+    return desc, orc.events(t1) != ev0
+
+
+def phases(tier):
+    from vmon import corpus
+    return [("corpus", corpus.phase(300, 20000, _corpus_body))]
